@@ -323,6 +323,10 @@ def signature_matches(sig, fsig):
 
 def finish(res, level_extra=None):
     """known-finding filtering, evidence file, VIOLATION lines, exit code"""
+    # a run in which no case was non-trivial decides nothing: it must not pass silently (e.g. every generated program
+    # rejected by the parser)
+    if res.evaluations > 0 and len(res.nontrivial) == 0 and not res.violations:
+        res.broken.append("coverage: %d evaluations, none of them non-trivial (nothing was actually exercised)" % res.evaluations)
     findings = [f for f in load_findings()
                 if res.pid in f.get("properties", [f["property"]]) and f.get("status") == "open"]
     unlisted = []
